@@ -85,3 +85,16 @@ Inductive verb : str -> Prop :=
 | verb_nil : verb []
 | verb_char c s : vchar c = true -> verb s -> verb (c :: s)
 | verb_group body s : walk body 0 = Some 0 -> verb s -> verb (123%N :: body ++ 125%N :: s).
+
+(* the grammar of well-formed format strings: level-0 characters and {...} parts; a part is
+   text only, or pre-text, one legal letter group, an optional {separator}, post-text *)
+Inductive wf_group : str -> Prop :=
+| wfg_plain pre : verb pre -> wf_group pre
+| wfg_sep pre ls dl post : verb pre -> legal_letters ls = true -> walk dl 0 = Some 0 -> verb post ->
+    wf_group (pre ++ ls ++ 123%N :: dl ++ 125%N :: post)
+| wfg_default pre ls post : verb pre -> legal_letters ls = true -> verb post -> lbrace (hd 0%N post) = false ->
+    wf_group (pre ++ ls ++ post).
+Inductive wf_format : str -> Prop :=
+| wf_nil : wf_format []
+| wf_char c s : lbrace c = false -> rbrace c = false -> wf_format s -> wf_format (c :: s)
+| wf_grp body s : wf_group body -> wf_format s -> wf_format (123%N :: body ++ 125%N :: s).
